@@ -107,6 +107,27 @@ def oracle(impl, o):
         want = render(u.enc_spec(spec))
         routes = [(f'protocol {p}', lambda p=p: pickle.loads(pickle.dumps(spec, protocol=p))) for p in range(0, 6)]
         routes += [('copy.copy', lambda: copy.copy(spec)), ('copy.deepcopy', lambda: copy.deepcopy(spec))]
+        # the dict-order mode is process configuration at *flatten* time: switching it between flatten, dump and load
+        # must not change what the treespec says (original key order included)
+        from run_impl import ns_arg
+
+        def flipped(f, dump_ns, load_ns=None):
+            def run():
+                cur = bool(optree._C.is_dict_insertion_ordered(dump_ns))
+                with optree.dict_insertion_ordered(not cur, namespace=ns_arg(dump_ns)):
+                    data_ = f()
+                if load_ns is None:
+                    return data_
+                cur2 = bool(optree._C.is_dict_insertion_ordered(load_ns))
+                with optree.dict_insertion_ordered(not cur2, namespace=ns_arg(load_ns)):
+                    return pickle.loads(data_)
+            return run
+        for fns in sorted({'', kw['namespace'] or 'a'}):
+            routes += [(f'dumps+loads with the mode of namespace {fns!r} flipped', flipped(lambda: pickle.loads(pickle.dumps(spec)), fns)),
+                       (f'copy.copy with the mode of namespace {fns!r} flipped', flipped(lambda: copy.copy(spec), fns)),
+                       (f'copy.deepcopy with the mode of namespace {fns!r} flipped', flipped(lambda: copy.deepcopy(spec), fns)),
+                       (f'dumps under flipped {fns!r}, loads outside', lambda fns=fns: pickle.loads(flipped(lambda: pickle.dumps(spec), fns)())),
+                       (f'dumps outside, loads under flipped {fns!r}', flipped(lambda: pickle.dumps(spec), 'zz-unused', fns))]
         for name, mk in routes:
             try:
                 s2 = mk()
